@@ -86,7 +86,12 @@ class Distortion:
             const = yr[0] / (np.tan(1e-10 *
                                     np.radians(self.optic.fields.max_field)))
 
-            if self.distortion_type == 'f-tan':
+            if (self.optic.field_type == 'object_height' and
+                    self.distortion_type in ('f-tan', 'f-theta')):
+                # fields are object heights, not angles: the paraxial image
+                # height is proportional to the object height
+                yp = yr[0] / Hy[0] * Hy
+            elif self.distortion_type == 'f-tan':
                 yp = const * np.tan(Hy *
                                     np.radians(self.optic.fields.max_field))
             elif self.distortion_type == 'f-theta':
